@@ -29,6 +29,14 @@ CLAIMED = {
           "Partial: the no-NaN clause is checked by the falsifier only (no Flocq proof of finiteness across histories)."),
  "C18": C("Coq theorems: every state lies in [0,m); the u64 product of a step cannot overflow for any seed and a seed is equivalent to its residue; the sequence is a function of the seed; over Flocq binary32, for EVERY state and all finite min <= max, generate(min,max) is finite and lies in [min,max]; shuffle never panics for any seed and length and returns a permutation. Tie: seeds small / reaching the 64 largest states / above 2^64/48271 / u64::MAX; falsifier over 2^16..2^22 states x 10 intervals.",
           "Coq proof (Z arithmetic, Flocq order reasoning, Permutation) + exact differential run + state sweep", "3/C18"),
+ "C06": C("Coq theorems over the model instantiated at the real numbers (the same generic definitions whose binary32 instance is tied to the code): each of the seven objectives returns its documented formula (KL with the 0*ln 0 = 0 convention of the repaired code); for AE (away from the kink), MSE, BCE and KL (inside the clamp) the returned gradient component IS the Coquelicot derivative of the reported loss with respect to that prediction component, for every vector length and position; the 3-D arm computes the flat arm's numbers in row-major order; a configured clamp limits each gradient component and leaves the loss unchanged. Tie: all objectives x ranks x value streams (probabilities, zeros, ones, out-of-range, huge), with/without clamp; falsifiers: f64 reference formulas and central finite differences of the library's own loss.",
+          "Coq proof (Coquelicot derivatives over NumR, list lemmas) + differential run + finite-difference oracle", "3/C06",
+          "Partial: the derivative theorems cover exactly the four objectives the property names; finiteness of the binary32 loss at boundary values (components exactly 0 or 1) and the gradient having the prediction's shape are decided by the tie and falsifier streams (exact 0/1 components, both ranks), not by a theorem; rounding error of the binary32 instance is measured by the tie (1e-4 relative), not bounded by proof."),
+ "C07": C("Coq theorems over the model at the real numbers: sigmoid = 1/(1+e^-x) with range (0,1) and derivative s(1-s); tanh' = 1/cosh^2; ReLU = max(0,x) and leaky ReLU with their derivatives away from 0; soft-max has the closed form e^x_i / sum e^x_j (the subtracted maximum cancels), is non-negative, sums to 1 and is invariant under a common shift, for every non-empty vector. Tie: every activation x rank x value stream (tiny, huge, +-0, ties in the maximum) forward and backward; falsifiers: f64 references, finite differences, soft-max sum/shift on the implementation.",
+          "Coq proof (Coquelicot derivatives, exp/ln algebra) + differential run + reference oracle", "3/C07",
+          "Partial: binary32 rounding of libm exp/tanh is outside the proof (glibc is called by both sides of the tie); the real-number theorems and the measured 1e-4 agreement together support 'up to rounding'."),
+ "C09": C("Coq theorems, generic in the number structure and for arbitrary architectures (any mix of dense/conv/deconv/max-pool/feedback layers, skip and loop connections, dropout on any subset): learn returns with every training flag off whether it ran all epochs or stopped early; validate evaluates every sample on a network whose flags are all off (also when called from inside learn); with all flags off forward/predict equal those of the identical network configured without dropout. Tie: learn with and without validation data and early stopping, dropout in plain layers and inside feedback blocks, flags read back after each call; falsifier: predict twice after learn/validate must be bit-identical and equal to the dropout-free twin.",
+          "Coq proof (structural induction over layers and the epoch loop) + differential run + flag/twin oracle", "3/C09"),
 }
 PENDING = {}
 
